@@ -9,6 +9,7 @@ are outside the model and observed by the oracle.
 import DarsiaProofs.Pipeline
 import DarsiaProofs.Persist
 import DarsiaGen.CallOrder
+import DarsiaGen.Promotion
 namespace Darsia.C13
 open Darsia Darsia.Pipeline
 
@@ -432,5 +433,50 @@ example : ZeroPreserving (some (Stage.pure (StageFn.chan 1).eval)) ∧
       | (simp only [List.mem_map] at hx
          obtain ⟨y, hy, rfl⟩ := hx
          rw [ha q hq y hy]; simp)
+
+/-! ### every dtype `img_as(float)` accepts (unsigned, signed, bool, float) -/
+
+/-- **Promotion rules tabulated from the implementation** (`DarsiaGen.Promotion`, regenerated each run by calling
+`Image.img_as(float)`, the constructor, `update(base=…)` and `__call__` on sample values of each dtype): the table has
+the twelve dtypes uint8…uint64, int8…int64, float16/32/64, bool, and for each of them the rule observed for
+`img_as(float)`, for the stored baseline (after construction and after `update`) and for the probe inside `__call__`
+is the model's rule of that dtype kind — in particular the probe is promoted exactly like the baseline. -/
+theorem promotion_rules_from_implementation :
+    (Gen.promotionTable.map fun r => (r.kind, r.bits)) =
+      [(.u, 8), (.u, 16), (.u, 32), (.u, 64), (.i, 8), (.i, 16), (.i, 32), (.i, 64), (.f, 16), (.f, 32), (.f, 64), (.b, 8)] ∧
+    ∀ r ∈ Gen.promotionTable,
+      r.imgAs = r.kind.rule ∧ r.ctor = r.kind.rule ∧ r.update = r.kind.rule ∧ r.call = r.kind.rule := by
+  decide
+
+/-- **Baseline → 0 for every dtype kind**: a probe pixel equal to the baseline pixel, both of kind `k` with `bits`
+bits and promoted by the rule of that kind, gives difference 0 under every option (any value, in range or not). -/
+theorem baseline_zero_every_dtype (o : DiffOpt) (k : DKind) (bits : Nat) (x : Rat) :
+    diffD o k bits k bits x x = 0 := diffD_self o k bits x
+
+/-- **positive + negative = absolute, positive − negative = plain** on the promoted values, for baseline and probe of
+any two (also different) dtype kinds and widths. -/
+theorem diff_parts_every_dtype (kb : DKind) (bb : Nat) (kp : DKind) (bp : Nat) (b p : Rat) :
+    diffD .positive kb bb kp bp b p + diffD .negative kb bb kp bp b p = diffD .absolute kb bb kp bp b p ∧
+    diffD .positive kb bb kp bp b p - diffD .negative kb bb kp bp b p = diffD .plain kb bb kp bp b p :=
+  diffD_parts kb bb kp bp b p
+
+/-- **Range of the promoted values**: unsigned pixel values of a `bits`-bit type land in [0, 1]; signed values
+(−2^(bits−1) … 2^(bits−1)−1, `bits ≥ 2`) land in [−1, 1] and, except for the most negative one (clipped to −1, so it
+coincides with its neighbour), are the plain quotient by 2^(bits−1)−1. -/
+theorem promoted_range (bits : Nat) (x : Rat) :
+    (0 < bits → 0 ≤ x → x ≤ ((2 ^ bits - 1 : Nat) : Rat) →
+      0 ≤ DKind.u.rule.apply bits x ∧ DKind.u.rule.apply bits x ≤ 1) ∧
+    (0 < ((2 ^ (bits - 1) - 1 : Nat) : Rat) → -(((2 ^ (bits - 1) - 1 : Nat) : Rat) + 1) ≤ x →
+      x ≤ ((2 ^ (bits - 1) - 1 : Nat) : Rat) →
+      -1 ≤ DKind.i.rule.apply bits x ∧ DKind.i.rule.apply bits x ≤ 1 ∧
+      (-((2 ^ (bits - 1) - 1 : Nat) : Rat) ≤ x → DKind.i.rule.apply bits x = x / ((2 ^ (bits - 1) - 1 : Nat) : Rat))) :=
+  ⟨fun hb h0 h1 => apply_unsigned_range bits hb x h0 h1, fun hm h0 h1 => apply_signed_range _ x hm h0 h1⟩
+
+/-- int16: −32768 and −32767 both become −1; 16384 − (−16384) is 32768/32767; a raw (unpromoted) signed probe against a
+promoted baseline would be off by orders of magnitude (what the rule `asIs` for a signed probe amounts to) -/
+example : DKind.i.rule.apply 16 (-32768) = -1 ∧ DKind.i.rule.apply 16 (-32767) = -1 ∧
+    diffD .plain .i 16 .i 16 (-16384) 16384 = 32768 / 32767 ∧
+    DiffOpt.plain.val (PRule.asIs.apply 16 16384) (DKind.i.rule.apply 16 (-16384)) = 16384 + 16384 / 32767 := by
+  decide +kernel
 
 end Darsia.C13
